@@ -181,7 +181,7 @@ const (
 	c07UpvalueVariants = 3
 	c07ConstVariants   = 6
 	c07CtorKeyed       = 4
-	c07CtorTails       = 4
+	c07CtorTails       = 6
 )
 
 func c07EnumerateSmall(thorough bool) []c07ID {
@@ -773,7 +773,12 @@ func c07MakeCtor(id c07ID, k, keyed, tail int) *c07Case {
 	}
 	want := map[string]lua.LValue{}
 	var sb strings.Builder
-	sb.WriteString("local function mk(...) return {")
+	if tail >= 4 {
+		// the last items are plain locals: a run of MOVEs directly in front of the (extended) SETLIST
+		sb.WriteString("local function mk(...) local la, lb, lc = ... return {")
+	} else {
+		sb.WriteString("local function mk(...) return {")
+	}
 	nk := 0
 	// shape flags that select the recorded constructor defects (see KNOWN_FINDINGS): a keyed field
 	// directly after an exactly full batch; a multi-value tail directly after an exactly full batch;
@@ -846,6 +851,12 @@ func c07MakeCtor(id c07ID, k, keyed, tail int) *c07Case {
 	case 3:
 		sb.WriteString("(M())")
 		n++
+	case 4:
+		sb.WriteString("la,lb")
+		n += 2
+	case 5:
+		sb.WriteString("la,lb,lc")
+		n += 3
 	}
 	for i := k + 1; i <= n; i++ {
 		want[fmt.Sprintf("%d", i)] = lua.LNumber(700000 + i - k)
@@ -855,7 +866,7 @@ func c07MakeCtor(id c07ID, k, keyed, tail int) *c07Case {
 	if n > 511*lua.FieldsPerFlush {
 		bucket = "batches>511"
 	}
-	tails := []string{"none", "call", "vararg", "parenthesised call"}
+	tails := []string{"none", "call", "vararg", "parenthesised call", "two locals", "three locals"}
 	keyeds := []string{"none", "constant keyed fields at start/middle/end", "computed keyed fields at start/middle/end", "computed keyed field after every full batch"}
 	return &c07Case{ID: id, Src: sb.String(), Exec: true, Budget: 2000000, Expect: c07ExpectTable(want, n), ExSig: fmt.Sprintf("ctor/keyedafterfull=%d/tailafterfull=%d/lastkeyedcall=%d/%s", afterFull, tailAfterFull, lastKeyedCall, bucket),
 		Note: fmt.Sprintf("constructor with %d positional items, keyed: %s, tail: %s", k, keyeds[keyed], tails[tail])}
